@@ -400,7 +400,7 @@ class IntroVisitor(ast.NodeVisitor):
             return
         if (
             node.id in self._start_mod.__dict__
-            and node.id not in python_builtin_names
+            # (a name defined by the module shadows the builtin of the same name: it is a user object)
             and LocalVar(node.id) not in self._function_var_names
             and LocalVar(node.id) not in self._store_names
         ):
